@@ -9,6 +9,8 @@ import (
 	"encoding/binary"
 	"fmt"
 	"io"
+	"os"
+	"path/filepath"
 	"reflect"
 	"runtime"
 	"sort"
@@ -1090,4 +1092,45 @@ func FuzzC39(f *testing.F) {
 		a[5], a[6], a[7] = byte(n>>16), byte(n>>8), byte(n)
 		c39ReadRaw(t, rec, c39Raw{A: a, Class: "fuzz", Incons: true})
 	})
+}
+
+// TestC39WriteCorpus writes the seed corpus of FuzzC39 (go fuzz corpus file format) into the
+// directory named by VERIF_WRITE_CORPUS; it is a maintenance helper and skipped otherwise.
+func TestC39WriteCorpus(t *testing.T) {
+	dir := os.Getenv("VERIF_WRITE_CORPUS")
+	if dir == "" {
+		t.Skip("maintenance helper")
+	}
+	hb := func(typ uint16, raw []byte) []byte {
+		return ctlFrame(typ, 0, append(append(u32(1, 0), 0, 0)[:headerPrefixLen(typ)], newRefDeflater().block(raw)...))
+	}
+	seeds := map[string][]byte{
+		"ping":                 ctlFrame(tPing, 0, u32(1)),
+		"ping-len8":            ctlFrame(tPing, 0, u32(1, 2)),
+		"rst-len0":             ctlFrame(tRstStream, 0, nil),
+		"rst-len12":            ctlFrame(tRstStream, 0, u32(1, 1, 0)),
+		"settings-count-short": ctlFrame(tSettings, 0, u32(1)),
+		"settings-extra":       ctlFrame(tSettings, 0, u32(0, 7, 1)),
+		"goaway-len4":          ctlFrame(tGoAway, 0, u32(1)),
+		"wu":                   ctlFrame(tWindowUpdate, 0, u32(1, 100)),
+		"data":                 dataFrame(1, 1, []byte("hello")),
+		"data-sid0":            dataFrame(0, 0, []byte("x")),
+		"syn-stream":           hb(tSynStream, rawBlock([]refPair{{":method", "GET"}, {":path", "/"}, {"accept", "a\x00b"}})),
+		"syn-reply":            hb(tSynReply, rawBlock([]refPair{{":status", "200"}})),
+		"headers":              hb(tHeaders, rawBlock([]refPair{{"x", "y"}})),
+		"syn-reply-name-1mb":   hb(tSynReply, append(u32(1, 1<<20), 'a')),
+		"headers-value-1mb":    hb(tHeaders, append(append(u32(1, 1), 'a'), u32(1<<20)...)),
+		"syn-stream-count-big": hb(tSynStream, u32(100000)),
+		"syn-stream-len4":      ctlFrame(tSynStream, 0, u32(1)),
+		"syn-reply-upper":      hb(tSynReply, rawBlock([]refPair{{"X-Upper", "v"}})),
+		"unknown-type":         ctlFrame(11, 3, []byte{1, 2, 3}),
+	}
+	if err := os.MkdirAll(dir, 0o755); err != nil {
+		t.Fatal(err)
+	}
+	for name, b := range seeds {
+		if err := os.WriteFile(filepath.Join(dir, name), []byte(fmt.Sprintf("go test fuzz v1\n[]byte(%q)\n", b)), 0o644); err != nil {
+			t.Fatal(err)
+		}
+	}
 }
